@@ -293,8 +293,7 @@ package msgpipeline
 //@ pure func domOrEmpty(key string) string = splitOK(key) ? splitDom(key) : ""
 //@ pure func srcFallback(cfg msgpipelineCfg, key string) sourceBlock = has(cfg.perSource, key) ? cfg.perSource[key] : (has(cfg.perSource, domOrEmpty(key)) ? cfg.perSource[domOrEmpty(key)] : cfg.defaultSource)
 //@ func (*msgpipelineDelivery).srcBlockForAddr
-//@   prop C04
-//@   modifies *
+//@   prop C04 C03
 //@   requires dd != nil && dd.d != nil
 //@   ensures !keyOK(mailFrom) ==> result1 != nil
 //@   ensures keyOK(mailFrom) ==> (forall i int :: 0 <= i && i < len(old(dd.d.sourceIn)) && tblHit(old(dd.d.sourceIn)[i].t, lookupKey(mailFrom)) && (forall j int :: 0 <= j && j < i ==> !tblHit(old(dd.d.sourceIn)[j].t, lookupKey(mailFrom))) ==> result1 == nil && result0 == old(dd.d.sourceIn)[i].block)
@@ -425,15 +424,19 @@ package msgpipeline
 // Start creates the pipeline delivery with no target delivery yet (they are opened lazily by AddRcpt); the sender
 // stage (checks, modifiers, source block selection) starts no target and touches no delivery (trusted frame of start;
 // its verdict obligations belong to C06 / C04).
+//@ func (*msgpipelineDelivery).initRunGlobalModifiers
+//@   prop C03
+//@   requires dd != nil && dd.d != nil
+//@   modifies dd.globalModifiersState
 //@ func (*msgpipelineDelivery).start
 //@   prop C03
-//@   trusted
+//@   requires dd != nil && dd.d != nil && runnerOK(dd.checkRunner)
 //@   modifies *
 //@   ensures dd.deliveries == old(dd.deliveries) && dd.checkRunner == old(dd.checkRunner) && gOpen == old(gOpen) && gCommitted == old(gCommitted)
 //@   ensures forall t module.DeliveryTarget :: has(dd.deliveries, t) == old(has(dd.deliveries, t))
 //@ func newCheckRunner
 //@   prop C03
-//@   ensures result != nil && fresh(result)
+//@   ensures result != nil && fresh(result) && runnerOK(result)
 //@ func (*MsgPipeline).Start
 //@   prop C03
 //@   modifies *
